@@ -1,0 +1,118 @@
+//go:build verif && (verif_all || verif_c18)
+// +build verif
+// +build verif_all verif_c18
+
+package gocql
+
+// Verification hooks for C18 (compression transparent and only as negotiated): thin exported
+// wrappers over the unexported framer / request builders / connection startup. Add-only.
+
+import (
+	"bytes"
+	"context"
+	"fmt"
+	"net"
+	"time"
+)
+
+// VerifC18Build builds one request frame of the given kind with the REAL builder on a framer made by
+// newFramer(comp, version) (tracing via framer.trace(), custom payload via the builder's payload map).
+func VerifC18Build(kind string, version byte, comp Compressor, tracing, payload bool, stream int, stmt string, blob []byte) ([]byte, error) {
+	f := newFramer(comp, version)
+	if tracing {
+		f.trace()
+	}
+	var cp map[string][]byte
+	if payload {
+		cp = map[string][]byte{"k": blob}
+	}
+	var vals []queryValues
+	if len(blob) > 0 {
+		vals = []queryValues{{value: blob}}
+	}
+	params := queryParams{consistency: One, values: vals}
+	var b frameBuilder
+	switch kind {
+	case "startup":
+		b = &writeStartupFrame{opts: map[string]string{"CQL_VERSION": stmt}}
+	case "options":
+		b = &writeOptionsFrame{}
+	case "query":
+		b = &writeQueryFrame{statement: stmt, params: params, customPayload: cp}
+	case "prepare":
+		b = &writePrepareFrame{statement: stmt, customPayload: cp}
+	case "execute":
+		b = &writeExecuteFrame{preparedID: []byte(stmt), params: params, customPayload: cp}
+	case "batch":
+		b = &writeBatchFrame{typ: LoggedBatch, consistency: One, customPayload: cp,
+			statements: []batchStatment{{statement: stmt, values: vals}}}
+	case "register":
+		b = &writeRegisterFrame{events: []string{stmt}}
+	case "auth":
+		b = &writeAuthResponseFrame{data: blob}
+	default:
+		return nil, fmt.Errorf("verif: unknown request kind %q", kind)
+	}
+	err := b.buildFrame(f, stream)
+	return f.buf, err
+}
+
+// VerifC18Raw: newFramer, flags |= extra, writeHeader(hdrFlags, op, stream), append body, finish.
+func VerifC18Raw(version byte, comp Compressor, extra, hdrFlags, op byte, stream int, body []byte) ([]byte, error) {
+	f := newFramer(comp, version)
+	f.flags |= extra
+	f.writeHeader(hdrFlags, frameOp(op), stream)
+	f.buf = append(f.buf, body...)
+	err := f.finish()
+	return f.buf, err
+}
+
+// VerifC18Read does what Conn.recv does with the bytes of one frame: readHeader, then
+// newFramer(comp, version).readFrame.
+func VerifC18Read(version byte, comp Compressor, wire []byte) (flags byte, stream int, op byte, length int, body []byte, err error) {
+	r := bytes.NewReader(wire)
+	var p [maxFrameHeaderSize]byte
+	head, err := readHeader(r, p[:])
+	if err != nil {
+		return
+	}
+	f := newFramer(comp, version)
+	if err = f.readFrame(r, &head); err != nil {
+		return
+	}
+	return head.flags, head.stream, byte(head.op), head.length, f.buf, nil
+}
+
+type verifC18Dialer struct{ c net.Conn }
+
+func (d verifC18Dialer) DialHost(ctx context.Context, host *HostInfo) (*DialedHost, error) {
+	return &DialedHost{Conn: d.c, DisableCoalesce: true}, nil
+}
+
+// VerifC18Dial runs the real connection startup (OPTIONS / SUPPORTED / STARTUP ...) over nc.
+func VerifC18Dial(nc net.Conn, comp Compressor, proto int) (*Conn, error) {
+	cfg := &ConnConfig{ProtoVersion: proto, CQLVersion: "3.0.0", Timeout: 5 * time.Second, ConnectTimeout: 5 * time.Second,
+		Compressor: comp, HostDialer: verifC18Dialer{nc}, disableCoalesce: true}
+	s := &Session{}
+	host := &HostInfo{hostId: "verif-c18", connectAddress: net.IPv4(127, 0, 0, 1), port: 9042}
+	return s.dial(context.Background(), host, cfg, connErrorHandlerFn(func(*Conn, error, bool) {}))
+}
+
+// VerifC18CompressorName is Name() of conn.compressor after startup ("" if nil).
+func VerifC18CompressorName(c *Conn) string {
+	if c.compressor == nil {
+		return ""
+	}
+	return c.compressor.Name()
+}
+
+// VerifC18Register sends a REGISTER request through Conn.exec and returns the opcode of the response.
+func VerifC18Register(c *Conn, event string) (byte, error) {
+	ctx, cancel := context.WithTimeout(context.Background(), 5*time.Second)
+	defer cancel()
+	f, err := c.exec(ctx, &writeRegisterFrame{events: []string{event}}, nil)
+	if err != nil {
+		return 0, err
+	}
+	return byte(f.header.op), nil
+}
